@@ -563,7 +563,12 @@ class Pulse:
             f"sum({self.proportions}) != sum({other.proportions}) (other)."
         )
         assert isclose_deme_proportions(
-            self.sources, self.proportions, other.sources, other.proportions
+            self.sources,
+            self.proportions,
+            other.sources,
+            other.proportions,
+            rel_tol=rel_tol,
+            abs_tol=abs_tol,
         )
 
     def isclose(
